@@ -1355,6 +1355,103 @@ theorem onLastParked_gc_mono {c : Cfg} {s s' : State} {tag : Nat} {r : LPR} (h :
                 have : (completeGc s3).gcDone = s3.gcDone + 1 := rfl
                 omega
 
+/-! ## the `park` step -/
+
+theorem step_park_other {c : Cfg} {s s' : State} {w tag x : Nat} (hs : step c s (.park w tag) = some s') (e : x ≠ w) :
+    s'.pc x = s.pc x ∨ (s.pc x = .waiting ∧ s'.pc x = .woken) := by
+  simp only [step] at hs
+  split at hs
+  · split at hs
+    · split at hs
+      · cases hs
+      · rename_i s1 hl; have f := frame_onLastParked c _ _ _ _ hl
+        injection hs with hs; subst hs; left; simp [setPc, e, f.pc]
+      · rename_i s1 hl; have f := frame_onLastParked c _ _ _ _ hl
+        injection hs with hs; subst hs; left; rw [afterUnpark_pc_other e]; show s1.pc x = _; rw [f.pc]
+      · rename_i s1 hl; have f := frame_onLastParked c _ _ _ _ hl
+        injection hs with hs; subst hs
+        rw [afterUnpark_pc_other e]
+        show (notifyAll s1).pc x = s.pc x ∨ _
+        simp only [notifyAll, f.pc]
+        by_cases hwx : s.pc x = .waiting
+        · right; simp [hwx]
+        · left; simp [hwx]
+    · injection hs with hs; subst hs; left; simp [setPc, e]
+  · cases hs
+
+theorem step_park_self {c : Cfg} {s s' : State} {w tag : Nat} (hs : step c s (.park w tag) = some s') :
+    s'.pc w = .waiting ∨ s'.pc w = .polling [] ∨ s'.pc w = .exited := by
+  simp only [step] at hs
+  split at hs
+  · split at hs
+    · split at hs
+      · cases hs
+      · injection hs with hs; subst hs; left; exact setPc_pc_self _ _ _
+      · rename_i s1 hl
+        injection hs with hs; subst hs
+        obtain ⟨p, hp, he⟩ := afterUnpark_pc { s1 with parked := s1.parked - 1 } w
+        rw [he, setPc_pc_self]; rcases hp with rfl | rfl
+        · exact Or.inr (Or.inr rfl)
+        · exact Or.inr (Or.inl rfl)
+      · rename_i s1 hl
+        injection hs with hs; subst hs
+        obtain ⟨p, hp, he⟩ := afterUnpark_pc { notifyAll s1 with parked := (notifyAll s1).parked - 1 } w
+        rw [he, setPc_pc_self]; rcases hp with rfl | rfl
+        · exact Or.inr (Or.inr rfl)
+        · exact Or.inr (Or.inl rfl)
+    · injection hs with hs; subst hs; left; exact setPc_pc_self _ _ _
+  · cases hs
+
+/-- the last parker found work to do and woke everybody -/
+theorem step_park_wakeAll {c : Cfg} {s s' s1 : State} {w tag : Nat} (hs : step c s (.park w tag) = some s')
+    (hlast : s.parked + 1 = c.n)
+    (hl : onLastParked c { s with parked := s.parked + 1, trace := [] } tag = some (s1, .wakeAll)) :
+    s' = afterUnpark { notifyAll s1 with parked := (notifyAll s1).parked - 1 } w := by
+  revert hl
+  generalize hs0 : ({ s with parked := s.parked + 1, trace := [] } : State) = s0
+  intro hl
+  have hp : s0.parked = c.n := by rw [← hs0]; exact hlast
+  simp only [step] at hs
+  split at hs
+  · rw [hs0] at hs
+    simp only [hl] at hs
+    injection hs with hs; exact hs.symm
+  · cases hs
+
+theorem hasDesignated_true {c : Cfg} {s : State} (h : hasDesignated c s = true) : ∃ x, x < c.n ∧ s.desig x ≠ [] := by
+  unfold hasDesignated at h
+  rw [List.any_eq_true] at h
+  obtain ⟨x, hx, hne⟩ := h
+  refine ⟨x, List.mem_range.1 hx, ?_⟩
+  intro e; rw [e] at hne; simp at hne
+
+/-- designated work for worker `x` exists and `x` polls without having seen its designated queue empty -/
+def DesigCov (s : State) (x : Nat) : Prop := s.desig x ≠ [] ∧ ∃ seen, s.pc x = .polling seen ∧ Cont.desig ∉ seen
+
+theorem desigCov_stable {c : Cfg} {s s' : State} {a : Act} {x : Nat} (he : QuietEff c s a s')
+    (h : DesigCov s x) : DesigCov s' x := by
+  obtain ⟨hd, seen, hpc, hns⟩ := h
+  refine ⟨by rw [quietEff_desig he]; exact hd, ?_⟩
+  rcases quietEff_pc he x with h | ⟨k, seen', _, hp1, hp2, hle⟩ | ⟨b, p, seen', rfl, _, _, _⟩ | ⟨seen', _, hp1, hall⟩ |
+      ⟨tag, _, hpw⟩ | ⟨_, hpw⟩
+  · exact ⟨seen, by rw [h]; exact hpc, hns⟩
+  · rw [hpc] at hp1; injection hp1 with hp1; subst hp1
+    refine ⟨_, hp2, ?_⟩
+    intro hmem
+    rcases List.mem_cons.1 hmem with e | e
+    · subst e
+      simp only [looksEmpty] at hle
+      cases hdv : s.desig x with
+      | nil => exact hd hdv
+      | cons q l => rw [hdv] at hle; cases hle
+    · exact hns e
+  · cases he with
+    | batch _ _ _ _ _ _ _ _ _ _ => exact ⟨[], setPc_pc_self _ _ _, by simp⟩
+  · rw [hpc] at hp1; injection hp1 with hp1; subst hp1
+    exact absurd (hall _ (by simp [allConts])) hns
+  · rw [hpc] at hpw; cases hpw
+  · rw [hpc] at hpw; cases hpw
+
 /-! ## every worker eventually parks: the last parker runs `on_last_parked` -/
 
 theorem FairRun.step_at {c : Cfg} {tr : Nat → State} {act : Nat → Option Act} (R : FairRun c tr act) {k : Nat} {a : Act}
@@ -1365,33 +1462,13 @@ theorem FairRun.stutter_at {c : Cfg} {tr : Nat → State} {act : Nat → Option 
     (ha : act k = none) : tr (k+1) = tr k := by
   have := R.next k; rw [ha] at this; exact this
 
-/-- **progress lemma**: in a fair run with finitely many packets and finitely many environment actions, in
-which no assertion fires, from a state where a goal is requested (or a Gc goal is current) the run reaches a
-`park` step of the *last* parker — the worker that runs `on_last_parked` — and `Pending` holds up to there. -/
-theorem last_park_eventually {c : Cfg} {tr : Nat → State} {act : Nat → Option Act}
-    (hn : 0 < c.n) (hmut : c.mutAddOpen = false) (hu : c.unconIdx < c.L)
-    (R : FairRun c tr act) (hN : FiniteSpawn tr) (hE : FiniteEnv act) (hA : NoAssert c tr) (hP : Pending c (tr 0)) :
-    ∃ j, IsLastPark c (tr j) (act j) ∧ ∀ i, i ≤ j → Pending c (tr i) := by
-  apply Classical.byContradiction
-  intro hno
-  -- `Pending` holds forever and the last parker never parks
-  have hall : ∀ j, ∀ i, i ≤ j → Pending c (tr i) := by
-    intro j
-    induction j with
-    | zero => intro i hi; have : i = 0 := by omega
-              subst this; exact hP
-    | succ j ih =>
-      intro i hi
-      by_cases e : i ≤ j
-      · exact ih i e
-      · have : i = j + 1 := by omega
-        subst this
-        have hnl : ¬ IsLastPark c (tr j) (act j) := fun h => hno ⟨j, h, ih⟩
-        cases ha : act j with
-        | none => rw [R.stutter_at ha]; exact ih j (Nat.le_refl _)
-        | some a => exact pending_step hn (R.reach j) (ih j (Nat.le_refl _)) (R.step_at ha) (by rw [← ha]; exact hnl)
-  have hpend : ∀ j, Pending c (tr j) := fun j => hall j j (Nat.le_refl _)
-  have hnl : ∀ j, ¬ IsLastPark c (tr j) (act j) := fun j h => hno ⟨j, h, hall j⟩
+/-- in a fair run with finitely many packets and finitely many environment actions, from some point on no
+packet starts or ends, no environment action happens, and no worker runs a packet -/
+theorem eventually_calm {c : Cfg} {tr : Nat → State} {act : Nat → Option Act} (hu : c.unconIdx < c.L)
+    (R : FairRun c tr act) (hN : FiniteSpawn tr) (hE : FiniteEnv act) :
+    ∃ K, (∀ j, K ≤ j → (tr (j+1)).started = (tr j).started ∧ (tr (j+1)).ended = (tr j).ended) ∧
+      (∀ j a, K ≤ j → act j = some a → a.isEnv = false) ∧
+      (∀ j, K ≤ j → ∀ w, w < c.n → ((tr j).pc w).isExec = false) := by
   -- the counters `started`, `ended` are eventually constant
   obtain ⟨N, hN⟩ := hN
   have hmono : ∀ j, (tr j).started ≤ (tr (j+1)).started ∧ (tr j).ended ≤ (tr (j+1)).ended := by
@@ -1439,8 +1516,37 @@ theorem last_park_eventually {c : Cfg} {tr : Nat → State} {act : Nat → Optio
       have := step_execEnd_ended (R.step_at ha)
       have := (hconst m (by omega)).2
       omega
-  -- the suffix from `K = max K1 K2` is a stuck run
-  let K := max K1 K2
+  exact ⟨max K1 K2, fun j hj => hconst j (by omega), fun j a hj ha => hK2 j a (by omega) ha, hnoexec⟩
+
+/-- **progress lemma**: in a fair run with finitely many packets and finitely many environment actions, in
+which no assertion fires, from a state where a goal is requested (or a Gc goal is current) the run reaches a
+`park` step of the *last* parker — the worker that runs `on_last_parked` — and `Pending` holds up to there. -/
+theorem last_park_eventually {c : Cfg} {tr : Nat → State} {act : Nat → Option Act}
+    (hn : 0 < c.n) (hmut : c.mutAddOpen = false) (hu : c.unconIdx < c.L)
+    (R : FairRun c tr act) (hN : FiniteSpawn tr) (hE : FiniteEnv act) (hA : NoAssert c tr) (hP : Pending c (tr 0)) :
+    ∃ j, IsLastPark c (tr j) (act j) ∧ ∀ i, i ≤ j → Pending c (tr i) := by
+  apply Classical.byContradiction
+  intro hno
+  -- `Pending` holds forever and the last parker never parks
+  have hall : ∀ j, ∀ i, i ≤ j → Pending c (tr i) := by
+    intro j
+    induction j with
+    | zero => intro i hi; have : i = 0 := by omega
+              subst this; exact hP
+    | succ j ih =>
+      intro i hi
+      by_cases e : i ≤ j
+      · exact ih i e
+      · have : i = j + 1 := by omega
+        subst this
+        have hnl : ¬ IsLastPark c (tr j) (act j) := fun h => hno ⟨j, h, ih⟩
+        cases ha : act j with
+        | none => rw [R.stutter_at ha]; exact ih j (Nat.le_refl _)
+        | some a => exact pending_step hn (R.reach j) (ih j (Nat.le_refl _)) (R.step_at ha) (by rw [← ha]; exact hnl)
+  have hpend : ∀ j, Pending c (tr j) := fun j => hall j j (Nat.le_refl _)
+  have hnl : ∀ j, ¬ IsLastPark c (tr j) (act j) := fun j h => hno ⟨j, h, hall j⟩
+  obtain ⟨K, hconst, hK2, hnoexec⟩ := eventually_calm hu R hN hE
+  -- the suffix from `K` is a stuck run
   have S : Stuck c (fun j => tr (K + j)) (fun j => act (K + j)) := {
     run := R.shift K
     eff := by
@@ -1459,5 +1565,106 @@ theorem last_park_eventually {c : Cfg} {tr : Nat → State} {act : Nat → Optio
       · exact Or.inl h
       · exact Or.inr (by rw [h]; simp) }
   exact S.false hn hmut
+
+/-! ## a GC in progress completes -/
+
+theorem bool_mono_const (f : Nat → Bool) (h : ∀ j, f j = true → f (j+1) = true) : ∃ K, ∀ j, K ≤ j → f j = f K := by
+  by_cases e : ∃ j, f j = true
+  · obtain ⟨K, hK⟩ := e
+    refine ⟨K, fun j hj => ?_⟩
+    have : ∀ d, f (K + d) = true := by
+      intro d
+      induction d with
+      | zero => exact hK
+      | succ d ih => exact h _ ih
+    have := this (j - K)
+    rw [show K + (j - K) = j by omega] at this
+    rw [this, hK]
+  · refine ⟨0, fun j _ => ?_⟩
+    have hf : ∀ i, f i = false := by
+      intro i
+      cases hf : f i with
+      | false => rfl
+      | true => exact absurd ⟨i, hf⟩ e
+    rw [hf j, hf 0]
+
+theorem quietEff_flags {c : Cfg} {s s' : State} {a : Act} (he : QuietEff c s a s') (b : Nat) :
+    (s'.bkt b).isOpen = (s.bkt b).isOpen ∧ (s'.bkt b).sentinel = (s.bkt b).sentinel := by
+  cases he with
+  | batch w b' p seen _ _ _ _ _ _ =>
+    simp only [setPc, setBuf, setBkt]
+    split
+    · rename_i e; subst e; exact ⟨rfl, rfl⟩
+    · exact ⟨rfl, rfl⟩
+  | _ => exact ⟨rfl, rfl⟩
+
+theorem current_gc_step {c : Cfg} (hn : 0 < c.n) {s s' : State} {a : Act} (hr : Reachable c s)
+    (hc : s.current = some .gc) (hs : step c s a = some s') (hg : s'.gcDone = s.gcDone) : s'.current = some .gc := by
+  have hE := (reachable_invE hn hr).2
+  by_cases hpk : ∃ w tag, a = .park w tag
+  · obtain ⟨w, tag, rfl⟩ := hpk
+    obtain ⟨_, _, _, hcase⟩ := step_park_cases hs
+    rcases hcase with ⟨_, rfl⟩ | ⟨_, s1, r, hl, he⟩
+    · exact hc
+    · have h1 : s'.current = s1.current := by rw [he]
+      have h2 : s'.gcDone = s1.gcDone := by rw [he]
+      rw [h1]
+      exact onLastParked_current c _ s1 tag r hl hc (by rw [← h2]; exact hg)
+  · rcases step_other_E c s s' a hs with h | ⟨w, rfl⟩ | ⟨w, rfl⟩ | rfl | ⟨hcur, _, _⟩
+    · exact absurd h hpk
+    · simp only [step] at hs
+      split at hs
+      · injection hs with hs; subst hs; rw [afterUnpark_current]; exact hc
+      · cases hs
+    · exfalso
+      simp only [step] at hs
+      split at hs
+      · split at hs
+        · rename_i hg'
+          obtain ⟨g, hg1, hg2⟩ := hE.exited w hg'.1 hg'.2
+          rw [hc] at hg1; injection hg1 with hg1; subst hg1; cases hg2
+        · cases hs
+      · cases hs
+    · simp only [step] at hs
+      split at hs
+      · split at hs
+        · injection hs with hs; subst hs; exact hc
+        · cases hs
+      · cases hs
+    · rw [hcur]; exact hc
+
+theorem first_change (f : Nat → Nat) (h : ∃ j, f j ≠ f 0) : ∃ j, f (j+1) ≠ f j ∧ ∀ i, i ≤ j → f i = f 0 := by
+  obtain ⟨j, hj⟩ := h
+  induction j with
+  | zero => exact absurd rfl hj
+  | succ j ih =>
+    by_cases e : f j = f 0
+    · by_cases e2 : ∀ i, i ≤ j → f i = f 0
+      · exact ⟨j, by rw [e]; exact hj, e2⟩
+      · have : ∃ i, i ≤ j ∧ f i ≠ f 0 := by
+          apply Classical.byContradiction
+          intro hne
+          exact e2 (fun i hi => Classical.byContradiction (fun hh => hne ⟨i, hi, hh⟩))
+        obtain ⟨i, hi, hne⟩ := this
+        -- take the least such i by a second induction
+        have least : ∀ m, (∃ i, i ≤ m ∧ f i ≠ f 0) → ∃ j, f (j+1) ≠ f j ∧ ∀ i, i ≤ j → f i = f 0 := by
+          intro m
+          induction m with
+          | zero => intro ⟨i, hi, hne⟩; have : i = 0 := by omega
+                    subst this; exact absurd rfl hne
+          | succ m ihm =>
+            intro ⟨i, hi, hne⟩
+            by_cases hm : ∃ i, i ≤ m ∧ f i ≠ f 0
+            · exact ihm hm
+            · have hall : ∀ i, i ≤ m → f i = f 0 :=
+                fun i hi => Classical.byContradiction (fun hh => hm ⟨i, hi, hh⟩)
+              have : i = m + 1 := by
+                apply Classical.byContradiction
+                intro hh
+                exact hne (hall i (by omega))
+              subst this
+              exact ⟨m, by rw [hall m (Nat.le_refl _)]; exact hne, hall⟩
+        exact least j ⟨i, hi, hne⟩
+    · exact ih e
 
 end Mmtk.Sched
